@@ -134,10 +134,13 @@ impl<Db: Database> Storage<Db> {
     fn get_impl<T: 'static>(&self, key: Key) -> Option<&T> {
         let Some(source_node) = self.internal.get_source_node(key) else {
             // Observing that a source is absent is also a read: the caller must be
-            // invalidated when a source with this key is later set.
+            // invalidated when a source with this key is later set. We do not know
+            // when the source was removed, so the observation is dated with the
+            // current epoch (a caller whose value changes because of a removal must
+            // not end up with an older time_updated than its dependents recorded).
             self.register_dependency_in_parent_memoized_fn(
                 NodeKind::AbsentSource(key),
-                Epoch::new(),
+                self.internal.current_epoch,
             );
             return None;
         };
